@@ -104,6 +104,8 @@ type FuncSpec struct {
 	Line      int
 	NoHavoc   bool
 	Reveal    []string
+	Implements string
+	GhostSets [][2]string // ghost assignments performed at function exit: target, expression
 }
 
 // Lemma: a quantified fact about opaque spec functions, proved once (with the definitions
@@ -119,7 +121,22 @@ type Lemma struct {
 	Line   int
 }
 
+// TableFact: a fact about every entry of a package-level lookup table ([]int), established by
+// evaluating the real, initialised table (exhaustive over the table) and assumed where the
+// table is read.
+type TableFact struct {
+	Global string // "limit/functions.sqrtRootLookup"
+	Pkg    string
+	Props  []string
+	Label  string
+	Text   string
+	Expr   *SExpr
+	File   string
+	Line   int
+}
+
 type Specs struct {
+	Tables  []*TableFact
 	Lemmas  []*Lemma
 	Types   map[string]*TypeSpec
 	Funcs   map[string]*FuncSpec
@@ -286,6 +303,21 @@ func (sp *Specs) parseFile(repo, file string) error {
 			}
 			d.Opaque = kw == "opaque"
 			sp.Defines[d.Name] = d
+		case "tablefact":
+			// tablefact[Cxx] global label: expr over i (index), v (entry), n (length)
+			parts := strings.SplitN(rest, " ", 2)
+			if len(parts) != 2 {
+				return fmt.Errorf("%s:%d: tablefact global label: expr", file, pendingLine)
+			}
+			lm := labelRe.FindStringSubmatch(strings.TrimSpace(parts[1]))
+			if lm == nil {
+				return fmt.Errorf("%s:%d: tablefact needs label: expr", file, pendingLine)
+			}
+			e, err := parseSpecExpr(lm[2])
+			if err != nil {
+				return fmt.Errorf("%s:%d: %v", file, pendingLine, err)
+			}
+			sp.Tables = append(sp.Tables, &TableFact{Global: qualify(pkg, parts[0]), Pkg: pkg, Props: props, Label: lm[1], Text: lm[2], Expr: e, File: file, Line: pendingLine})
 		case "lemma":
 			// lemma[Cxx] name(a T, b U): expr
 			i := strings.Index(rest, "(")
@@ -308,6 +340,14 @@ func (sp *Specs) parseFile(repo, file string) error {
 			}
 			lm.Body = e
 			sp.Lemmas = append(sp.Lemmas, lm)
+		case "ghostset":
+			i := strings.Index(rest, "=")
+			if i < 0 {
+				return fmt.Errorf("%s:%d: ghostset target = expr", file, pendingLine)
+			}
+			curF.GhostSets = append(curF.GhostSets, [2]string{strings.TrimSpace(rest[:i]), strings.TrimSpace(rest[i+1:])})
+		case "implements":
+			curF.Implements = qualify(pkg, rest)
 		case "reveal":
 			if curF == nil {
 				return fmt.Errorf("%s:%d: reveal outside func", file, pendingLine)
